@@ -11,7 +11,7 @@ WORK = run.WORK
 #   crashes/wf/rf: crash and fault budgets of the random runs (rf only where the quantifier includes read errors)
 LIFE = {
     "C01": dict(models=["base_foreign", "restart"], tmodels=["t_restart3", "overlap"], fams=["other", "base", "amtless", "twohash"],
-                crashes=(0, 1), wf=0, rf=0),
+                crashes=(0, 1), wf=0, rf=0, extra=["class"]),
     "C02": dict(extra=["wait_timeout"], focus=["Overlap", "Live"], models=["restart", "faults"], tmodels=["t_restart3", "t_faults2", "overlap"], fams=["base", "overlap", "amtless", "replay"],
                 crashes=(0, 1, 1), wf=1, rf=0, trf=1),
     "C03": dict(models=["base_conf", "base_amtless", "base_zero", "restart"], tmodels=["t_restart3", "base_tot"], fams=["base", "amtless", "overlap", "other"],
@@ -26,13 +26,13 @@ LIFE = {
     "C08": dict(extra=["wait_timeout"], focus=["Overlap", "Live"], models=["overlap", "faults", "restart"], tmodels=["t_overlap2", "t_faults2"], fams=["overlap", "base"],
                 crashes=(0, 1), wf=1, rf=0),
     "C09": dict(models=["wedge", "faults"], tmodels=["t_faults2", "restart"], fams=["base", "overlap"], crashes=(0, 1, 1), wf=1, rf=0, probes=3),
-    "C11": dict(clockback=True, extra=["restart_wait", "e2e_mpp"], models=["base_conf", "base_thirds", "restart"], tmodels=["t_restart3", "base_exp"], fams=["base", "amtless"], crashes=(0, 1), wf=0, rf=0),
+    "C11": dict(clockback=True, extra=["restart_wait", "poll_window", "e2e_mpp"], models=["base_conf", "base_thirds", "restart"], tmodels=["t_restart3", "base_exp"], fams=["base", "amtless"], crashes=(0, 1), wf=0, rf=0),
     "C12": dict(models=["base_tot", "base_exp", "base_zero"], tmodels=["base_conf"], fams=["base", "amtless"], crashes=(0,), wf=0, rf=0),
     "C13": dict(models=["base_foreign"], tmodels=["twohash"], fams=["other", "twohash"], crashes=(0,), wf=0, rf=0, extra=["class"]),
     "C10": dict(models=["base_foreign", "base_amtless"], tmodels=["base_conf"], fams=["other", "amtless"], crashes=(0,), wf=0, rf=0, extra=["class"]),
     "C15": dict(models=["provider"], tmodels=[], fams=["base"], crashes=(0,), wf=0, rf=0, direct=3, allrate=1, extra=["e2e_codes"]),
     "C16": dict(models=["provider"], tmodels=[], fams=["base"], crashes=(0,), wf=0, rf=0, direct=3, allrate=1),
-    "C14": dict(extra=["e2e_iso"], live=["iso"], models=["twohash"], tmodels=["t_twohash2"], fams=["twohash"], crashes=(0,), wf=0, rf=0, freeze=True),
+    "C14": dict(extra=["e2e_iso", "poll_window"], live=["iso"], models=["twohash"], tmodels=["t_twohash2"], fams=["twohash"], crashes=(0,), wf=0, rf=0, freeze=True),
 }
 
 STATS = re.compile(r"(\d+) states generated, (\d+) distinct states found")
@@ -235,6 +235,10 @@ def build_jobs(pid, tier, seed, workdir):
         dj = scen.restart_wait_jobs(start_run=runno)
         jobs += dj; runno += len(dj)
         sched_stats["directed restart/timeout schedules"] = len(dj)
+    if "poll_window" in ex:
+        dj = scen.poll_window_jobs(start_run=runno)
+        jobs += dj; runno += len(dj)
+        sched_stats["directed height-poll-in-flight schedules (real BlockWatcher)"] = len(dj)
     if "wait_timeout" in ex:
         dj = scen.wait_timeout_jobs(start_run=runno)
         jobs += dj; runno += len(dj)
